@@ -358,4 +358,91 @@ theorem compose_relaxed (B : Bnds) (n0 N : Nat) (defs : List Def) (roots : List 
     obtain ⟨c, hc⟩ := propLin_mem _ r.body p hp
     exact req_mono (hcov.1 r hr p hp) (inv p.1 (hroots r hr (c, p.1) hc))
 
+
+/-! ## Layer 2: auxiliary variables, steps in conversion order -/
+
+theorem build_steps (N : Nat) (Dom : Asg → Prop)
+    (hDom : ∀ z z' : Asg, (∀ v, v < N → z' v = z v) → Dom z → Dom z') (steps : List Step) :
+    ∀ (m : Nat) (z : Asg), N ≤ m → Chain m steps → (∀ s ∈ steps, StepOK N Dom s) →
+      (∀ s ∈ steps, s.res < N ∧ ∀ v ∈ s.f.vars, v < N) → Dom z → (∀ s ∈ steps, z s.res = s.f.val z) →
+      ∃ z', (∀ v, v < m → z' v = z v) ∧ ∀ s ∈ steps, s.Deliv z' := by
+  induction steps with
+  | nil => intro m z _ _ _ _ _ _; exact ⟨z, fun _ _ => rfl, by simp⟩
+  | cons s t ih =>
+    intro m z hm hch hok hlt hdz hex
+    obtain ⟨c1, c2, c3⟩ := hch
+    obtain ⟨o1, _, o3, o4⟩ := hok s (by simp)
+    obtain ⟨z1, hag1, hd1⟩ := o3 z hdz (hex s (by simp))
+    have hagN : ∀ v, v < N → z1 v = z v := fun v hv => hag1 v (Nat.lt_of_lt_of_le hv o1)
+    have hdz1 : Dom z1 := hDom z z1 hagN hdz
+    have hex1 : ∀ s' ∈ t, z1 s'.res = s'.f.val z1 := by
+      intro s' hs'
+      have hl := hlt s' (by simp [hs'])
+      rw [hagN _ hl.1, hex s' (by simp [hs'])]
+      exact (val_congr s'.f z1 z (fun v hv => hagN v (hl.2 v hv))).symm
+    have hmh : N ≤ s.hi := Nat.le_trans o1 c2
+    obtain ⟨z2, hag2, hd2⟩ := ih s.hi z1 hmh c3 (fun s' hs' => hok s' (by simp [hs']))
+      (fun s' hs' => hlt s' (by simp [hs'])) hdz1 hex1
+    refine ⟨z2, ?_, ?_⟩
+    · intro v hv
+      rw [hag2 v (Nat.lt_of_lt_of_le hv (Nat.le_trans c1 c2)), hag1 v (Nat.lt_of_lt_of_le hv c1)]
+    · intro s' hs'
+      simp only [List.mem_cons] at hs'
+      rcases hs' with hs' | hs'
+      · subst hs'; exact o4 z1 z2 hag2 hd1
+      · exact hd2 s' hs'
+
+/-- **composition**: NL-level semantics ⇔ the delivered rows are satisfiable over result and auxiliary variables -/
+theorem compose (B : Bnds) (n0 N : Nat) (defs : List Def) (steps : List Step) (roots : List Root) (Dom : Asg → Prop)
+    (hDom : ∀ z z' : Asg, (∀ v, v < N → z' v = z v) → Dom z → Dom z')
+    (hperm : ∀ d, d ∈ defs ↔ ∃ s ∈ steps, s.toDef = d)
+    (hwf : WF n0 defs) (hN : ∀ d ∈ defs, d.res < N)
+    (hroots : ∀ r ∈ roots, ∀ p ∈ r.body, p.2 < N)
+    (hfin : ∀ r ∈ roots, (∀ l, r.lb = some l → -pracInf < l) ∧ (∀ u, r.ub = some u → u < pracInf))
+    (hcov : CtxCovers B defs roots)
+    (hchain : Chain N steps) (hok : ∀ s ∈ steps, StepOK N Dom s)
+    (hDomOK : ∀ y, Dom y → ∀ d ∈ defs, FunOK B d.f y)
+    (x : Asg) (hDomE : Dom (exactAsg x defs)) :
+    NLsat defs roots x ↔ ∃ y, Delivered N defs steps roots Dom x y := by
+  have hvarsN : ∀ d ∈ defs, ∀ v ∈ d.f.vars, v < N := by
+    have : ∀ (m : Nat) (l : List Def), WF m l → ∀ d' ∈ l, ∀ w ∈ d'.f.vars, w < d'.res := by
+      intro m l
+      induction l generalizing m with
+      | nil => simp
+      | cons a t iht =>
+        intro hw d' hd'
+        obtain ⟨_, h2, h3⟩ := hw
+        simp only [List.mem_cons] at hd'
+        rcases hd' with hd' | hd'
+        · subst hd'; exact h2
+        · exact iht (a.res + 1) h3 d' hd'
+    intro d hd v hv
+    exact Nat.lt_trans (this n0 defs hwf d hd v hv) (hN d hd)
+  constructor
+  · intro hnl
+    have hE : ∀ s ∈ steps, (exactAsg x defs) s.res = s.f.val (exactAsg x defs) := by
+      intro s hs
+      exact exact_spec x n0 defs hwf s.toDef ((hperm s.toDef).mpr ⟨s, hs, rfl⟩)
+    have hlt : ∀ s ∈ steps, s.res < N ∧ ∀ v ∈ s.f.vars, v < N := by
+      intro s hs
+      have hm := (hperm s.toDef).mpr ⟨s, hs, rfl⟩
+      exact ⟨hN _ hm, hvarsN _ hm⟩
+    obtain ⟨y, hag, hdel⟩ := build_steps N Dom hDom steps N (exactAsg x defs) (Nat.le_refl N) hchain hok hlt hDomE hE
+    refine ⟨y, ?_, hDom _ y hag hDomE, hdel, ?_⟩
+    · intro v hv hnd; rw [hag v hv]; exact exact_undefined x defs v hnd
+    · intro r hr
+      have := hnl r hr
+      unfold Root.sat at this ⊢
+      have hagree : agree N (exactAsg x defs) y := hag
+      rw [evalLin_agree hagree (hroots r hr)]; exact this
+  · intro ⟨y, hsh, hdy, hdel, hrt⟩
+    have hrelaxed : Relaxed N defs roots x y := by
+      refine ⟨hsh, ?_, hrt⟩
+      intro d hd
+      obtain ⟨s, hs, e⟩ := (hperm d).mp hd
+      subst e
+      exact (hok s hs).2.1 y hdy (hdel s hs)
+    exact (compose_relaxed B n0 N defs roots x hwf hN hroots hfin hcov (hDomOK _ hDomE)).mpr
+      ⟨y, hDomOK y hdy, hrelaxed⟩
+
 end MpVerif.C01
